@@ -186,12 +186,27 @@ pub fn value_satisfies_type<TCompilationProfile: CompilationProfile>(
                 .wrap_err()
             }
         }
-        NonConstantValue::Integer(_) => scalar_literal_satisfies_type(
-            *INT_ENTITY_NAME,
-            field_argument_definition_type,
-            selection_supplied_argument_value.location,
-            "an integer literal",
-        )
+        NonConstantValue::Integer(value) => if i32::try_from(*value).is_ok() {
+            scalar_literal_satisfies_type(
+                *INT_ENTITY_NAME,
+                field_argument_definition_type,
+                selection_supplied_argument_value.location,
+                "an integer literal",
+            )
+        } else {
+            // Int is a signed 32-bit integer; a larger literal can still be a Float or an ID
+            Diagnostic::new(
+                format!(
+                    "Mismatched type. Expected {field_argument_definition_type}, \
+                    found {value}, which does not fit in the 32 bits of an Int."
+                ),
+                selection_supplied_argument_value
+                    .location
+                    .to::<Location>()
+                    .wrap_some(),
+            )
+            .wrap_err()
+        }
         .or_else(|error| {
             scalar_literal_satisfies_type(
                 *FLOAT_ENTITY_NAME,
